@@ -2,7 +2,8 @@
    and globals G.  The program is abstracted as the sequence of binding operations it performs on its (function)
    locals and on globals, possibly cut short by an exception.  Names are interned:
      0 "__", 1 "builtins", 2 "_X5ix_pyccolo_local_env", 3 "_X5ix_pyccolo_sandbox", 4..9 names starting with "@",
-     >= 10 ordinary identifiers.   No proofs in this file. *)
+     30..39 keys that cannot be parameter names ("class", "a b", "None", "__debug__"), every other number >= 10 an ordinary identifier.
+   No proofs in this file. *)
 From Coq Require Import List ZArith NArith Bool.
 Import ListNotations.
 
@@ -15,14 +16,19 @@ Definition aset (m : assoc) (k : N) (v : Z) : assoc := adel m k ++ [(k, v)].    
 Definition n_dunder : N := 0. Definition n_builtins : N := 1. Definition n_env : N := 2. Definition n_fun : N := 3.
 Definition at_prefixed (k : N) : bool := (4 <=? k)%N && (k <=? 9)%N.
 Definition internal (k : N) : bool := N.eqb k n_env || N.eqb k n_fun.
-(* args_to_use = [k for k in local_env.keys() if not k.startswith("@") and k != "__"] *)
 Definition usable (k : N) : bool := negb (at_prefixed k) && negb (N.eqb k n_dunder).
+Definition cannot_be_param (k : N) : bool := (30 <=? k)%N && (k <=? 39)%N.      (* not k.isidentifier() or keyword.iskeyword(k) or k == "__debug__" *)
+(* args_to_use: the supplied names that become keyword-only parameters (gd = the names the outermost scope of the program declares global) *)
+Definition is_param (gd : list N) (k : N) : bool := usable k && negb (cannot_be_param k) && negb (existsb (N.eqb k) gd).
+(* passed_through: handed back unchanged ("@..." and "__" are dropped, as before) *)
+Definition passes_through (gd : list N) (k : N) : bool := negb (is_param gd k) && usable k.
 
 Inductive op : Set :=
   | Bind (k : N) (v : Z)       (* k = v       (k not declared global) *)
   | Del (k : N)                (* del k *)
   | GBind (k : N) (v : Z).     (* global k; k = v *)
-Record prog : Set := { ops : list op; raises_after : option nat }.    (* Some i: an exception escapes after i operations *)
+Record prog : Set := { ops : list op; raises_after : option nat;      (* Some i: an exception escapes after i operations *)
+                       gdecl : list N }.                               (* `global a, b` at the top of the text *)
 
 Definition apply_op (st : assoc * assoc) (o : op) : assoc * assoc :=
   let '(loc, g) := st in
@@ -33,10 +39,15 @@ Definition apply_op (st : assoc * assoc) (o : op) : assoc * assoc :=
   end.
 Definition run_ops (l : list op) (st : assoc * assoc) : assoc * assoc := fold_left apply_op l st.
 
+(* for k in passed_through: if k in local_env: result.setdefault(k, local_env[k]) *)
+Definition setdefaults (res pt : assoc) : assoc :=
+  fold_left (fun r kv => match aget r (fst kv) with Some _ => r | None => aset r (fst kv) (snd kv) end) pt res.
+
 (* returns (Some result | None if the program raised, caller's local mapping afterwards, globals afterwards) *)
 Definition exec_model (L G : assoc) (p : prog) : option assoc * assoc * assoc :=
   let env := L in                                           (* _X5ix_pyccolo_local_env = dict(locals()) *)
-  let params := filter (fun kv => usable (fst kv)) env in   (* keyword-only parameters; the rest lands in **__ *)
+  let params := filter (fun kv => is_param (gdecl p) (fst kv)) env in   (* keyword-only parameters; the rest lands in **__ *)
+  let pt := filter (fun kv => passes_through (gdecl p) (fst kv)) L in
   match raises_after p with
   | Some i =>
       let '(_, g) := run_ops (firstn i (ops p)) (params, G) in
@@ -46,7 +57,7 @@ Definition exec_model (L G : assoc) (p : prog) : option assoc * assoc * assoc :=
       let '(loc, g) := run_ops (ops p) (params, G) in
       let res0 := aset loc n_dunder 0 in                    (* locals() also shows the **__ catch-all *)
       let res := adel (adel res0 n_dunder) n_builtins in    (* .pop("__", None); .pop("builtins", None) *)
-      (Some res, adel (adel (aset (aset L n_env 0) n_fun 0) n_fun) n_env, g)
+      (Some (setdefaults res pt), adel (adel (aset (aset L n_env 0) n_fun 0) n_fun) n_env, g)
   end.
 
 (* the property's reference: run the same text as the body of a function whose parameters are the supplied names *)
